@@ -11,9 +11,11 @@ import time
 
 VERIF = os.path.dirname(os.path.dirname(os.path.abspath(__file__)))
 HARNESS = os.path.join(VERIF, "harness")
-REPO = "/repo"
-EVIDENCE = os.path.join(VERIF, "evidence")
-REPLAYS = os.path.join(VERIF, "replays")
+# the tree under test; VERIF_REPO lets the sensitivity helpers point the whole machinery at a
+# scratch copy (the registered commands never set it: they build from /repo's working tree)
+REPO = os.environ.get("VERIF_REPO", "/repo")
+EVIDENCE = os.environ.get("VERIF_EVIDENCE_DIR", os.path.join(VERIF, "evidence"))
+REPLAYS = os.environ.get("VERIF_REPLAYS_DIR", os.path.join(VERIF, "replays"))
 KNOWN = os.path.join(VERIF, "known_findings.json")
 NCPU = os.cpu_count() or 4
 
@@ -62,9 +64,30 @@ def overlay_path():
     return fsoverlay.ensure()
 
 
+_ALT_MOD = None
+
+
+def modfile_args():
+    """[] normally; with VERIF_REPO set, a -modfile whose replace points at that copy."""
+    global _ALT_MOD
+    if REPO == "/repo":
+        return []
+    if _ALT_MOD is None:
+        d = "/dev/shm/verif-altmod-%d" % os.getpid()
+        os.makedirs(d, exist_ok=True)
+        text = open(os.path.join(HARNESS, "go.mod")).read().replace("=> /repo", "=> " + REPO)
+        with open(os.path.join(d, "go.mod"), "w") as fh:
+            fh.write(text)
+        shutil.copy(os.path.join(HARNESS, "go.sum"), os.path.join(d, "go.sum"))
+        import atexit
+        atexit.register(lambda: shutil.rmtree(d, ignore_errors=True))
+        _ALT_MOD = os.path.join(d, "go.mod")
+    return ["-modfile=" + _ALT_MOD]
+
+
 def build_test(pkg, out, race=False, overlay=False):
     """go test -c of harness/checks/<pkg> against /repo's working tree, tag verif."""
-    cmd = ["go", "test", "-c", "-tags", "verif", "-vet=off", "-o", out]
+    cmd = ["go", "test", "-c", "-tags", "verif", "-vet=off", "-o", out] + modfile_args()
     if race:
         cmd.append("-race")
     if overlay:
@@ -82,7 +105,7 @@ def build_test(pkg, out, race=False, overlay=False):
 
 
 def build_cmd(pkgpath, out, race=False, overlay=False, tags="verif"):
-    cmd = ["go", "build", "-tags", tags, "-o", out]
+    cmd = ["go", "build", "-tags", tags, "-o", out] + modfile_args()
     if race:
         cmd.append("-race")
     if overlay:
